@@ -937,7 +937,16 @@ impl<'de> Deserialize<'de> for CompoundType {
     where
         D: Deserializer<'de>,
     {
-        Type::deserialize(deserializer).map(Self::from)
+        use serde::de::Error;
+
+        // `Self::from` panics when the type has more layers than a
+        // `CompoundType` can hold, which must not happen for untrusted input.
+        match Type::deserialize(deserializer)? {
+            Type::Array(ty) => ty.push(Layer::Array),
+            Type::Map(ty) => ty.push(Layer::Map),
+            ty => Some(Self::from_type(ty)),
+        }
+        .ok_or_else(|| D::Error::custom("type has too many nested array or map layers"))
     }
 }
 
